@@ -138,6 +138,10 @@ theorem entry_points : Gen.entryPoints.map (·.1) = [
 variant the setter stores. -/
 theorem desc_keys_match : ∀ p ∈ Gen.descKeys, p.2.1 = p.2.2.2.1 ∧ p.2.2.1 = p.2.2.2.2 := by decide
 
+/-- Different descriptor kinds use different key constructors (so a registration for one kind can never
+be found under another kind with the same name), and each kind stores its own variant. -/
+theorem desc_keys_distinct : (Gen.descKeys.map (·.2.1)).Nodup ∧ (Gen.descKeys.map (·.2.2.1)).Nodup := by decide
+
 theorem desc_kinds : Gen.descKeys.map (·.1) = [
     "binary".toList, "chain".toList, "function".toList, "list".toList, "map".toList, "postfix".toList,
     "reference".toList, "ternary".toList, "unary".toList] := by decide
